@@ -6,9 +6,9 @@
    Events (NDJSON, one per line):
    parse  d n | cnt r c ex sr | cx nfe px pc pe psr | ir ir2 ie
    iter   d n ops=[[op,arg,ret,id,frame,at,len]..]     op 0 next 1 reset 2 set_frame_max 3 find 4 next(NULL)
-   gen    n pad list=[[id,frame,[payload]]..] S cap r rd out | rx ox | rl cl rdl capm rm cm
+   gen    n pad list=[[id,frame,[payload]]..] S cap r rd out | rx ox | rl cl rdl capm padm rm cm
    rt     like gen, with d: the list is what opus_packet_extensions_parse reported for (d, n)
-   rp     repacketizer carriage: see emit_rp
+   rp     x (generator state, for replay) in=[{cat,m,pad}..] b e r m pad: see emit_rp
    Offsets ("at") are relative to the start of the data buffer. */
 #include "hx_common.h"
 #include "opus.h"
@@ -147,6 +147,8 @@ static void js_list(const opus_extension_data *l, int nb)
    printf("]");
 }
 
+/* capm < 0: choose the smaller capacity (and its pad flag) at random; otherwise use capm/padm (replay) */
+static int g_capm = -1, g_padm = 0;
 static void gen_calls(const opus_extension_data *list, int nb, int n, int extra, int pad, hx_rng *r)
 {
    opus_int32 S, cap, ret, rd;
@@ -183,12 +185,14 @@ static void gen_calls(const opus_extension_data *list, int nb, int n, int extra,
       xin_free(&b);
    }
    if (S > 0) {      /* one byte less, and some smaller capacity: must be refused, canaries intact */
-      hx_buf g = hx_buf_new((size_t)(S - 1), 0xEE); opus_int32 capm = (opus_int32)hx_u(r, (uint32_t)S);
+      hx_buf g = hx_buf_new((size_t)(S - 1), 0xEE);
+      opus_int32 capm = (g_capm >= 0 && g_capm < S) ? g_capm : (opus_int32)hx_u(r, (uint32_t)S);
+      int padm = g_capm >= 0 ? g_padm : (int)hx_u(r, 2);
       hx_buf h = hx_buf_new((size_t)capm, 0xEE);
       js_int("rl", opus_packet_extensions_generate(g.p, S - 1, list, nb, n, pad)); js_int("cl", hx_buf_ok(&g));
       js_int("rdl", opus_packet_extensions_generate(NULL, S - 1, list, nb, n, pad));
-      js_int("capm", capm);
-      js_int("rm", opus_packet_extensions_generate(h.p, capm, list, nb, n, hx_u(r, 2))); js_int("cm", hx_buf_ok(&h));
+      js_int("capm", capm); js_int("padm", padm);
+      js_int("rm", opus_packet_extensions_generate(h.p, capm, list, nb, n, padm)); js_int("cm", hx_buf_ok(&h));
       hx_buf_free(&g); hx_buf_free(&h);
    }
 }
@@ -350,6 +354,23 @@ static void gen_lists(hx_rng *r, int count, int huge)
    list_clear();
 }
 
+/* long lists (up to ~9000 entries) and lists with payloads of 60000..70000 bytes */
+static void gen_big(hx_rng *r, int count)
+{
+   int it;
+   for (it = 0; it < count; it++) {
+      int n;
+      if (it % 2 == 0) n = make_list(r, 2, 1);
+      else {
+         n = make_list(r, hx_u(r, 2), 1);
+         list_add(r, pick_id(r, 1), (int)hx_u(r, (uint32_t)n), hx_range(r, 60000, 70000));
+         if (hx_u(r, 2)) list_shuffle(r);
+      }
+      emit_gen(g_list, g_nb, n, (int)hx_u(r, 3), hx_u(r, 3) == 0, r);
+   }
+   list_clear();
+}
+
 /* ------------------------------------------------------------------ byte-string sources */
 static unsigned char g_d[80000];
 
@@ -364,13 +385,14 @@ static void lift(hx_rng *r, unsigned char *d, int len)
       else if (d[i] == 64) d[i] = (unsigned char)(2 * idl); else if (d[i] == 65) d[i] = (unsigned char)(2 * idl + 1);
    }
 }
-static void sigma_all(hx_rng *r, int K, int with_rt)
+static void sigma_all(hx_rng *r, int K, int with_rt, int shard, int nshards)
 {
    int len, n, i; long total, x;
    for (len = 0; len <= K; len++) {
       total = 1; for (i = 0; i < len; i++) total *= NSIGMA;
       for (x = 0; x < total; x++) {
          long y = x;
+         if (x % nshards != shard) continue;
          for (i = 0; i < len; i++) { g_d[i] = SIGMA[y % NSIGMA]; y /= NSIGMA; }
          if (hx_u(r, 2)) lift(r, g_d, len);
          for (n = 1; n <= 3; n++) {
@@ -425,8 +447,9 @@ static void genmut(hx_rng *r, int count, int what)
    int it;
    for (it = 0; it < count; it++) {
       int n = make_list(r, hx_u(r, 4) ? 1 : 0, 0), len, k, nm = hx_range(r, 0, 3);
-      len = opus_packet_extensions_generate(g_d, 4000, g_list, g_nb, n, hx_u(r, 6) == 0);
+      len = opus_packet_extensions_generate(g_d, 4000, g_list, g_nb, n, 0);
       if (len < 0) continue;
+      if (hx_u(r, 6) == 0) { int padn = hx_range(r, 1, 40); if (len + padn > 4000) padn = 4000 - len; memmove(g_d + padn, g_d, (size_t)len); memset(g_d, 1, (size_t)padn); len += padn; }
       for (k = 0; k < nm && len < 4000; k++) {
          int pos = (int)hx_u(r, (uint32_t)len + 1), w = hx_u(r, 9);
          if (w == 0) { memmove(g_d + pos + 1, g_d + pos, (size_t)(len - pos)); g_d[pos] = 1; len++; }
@@ -455,10 +478,16 @@ static void genmut(hx_rng *r, int count, int what)
 static void emit_rp(hx_rng *r)
 {
    static unsigned char pk[8][6000], outb[40000];
-   int plen[8], pfr[8], nin = hx_range(r, 1, 5), i, j, tot = 0, b, e, ret;
-   unsigned char toc = (unsigned char)((hx_pick(r, (const int[]){16, 17, 18, 24, 25, 26, 0, 8}, 8)) << 3 | 3);
-   OpusRepacketizer *rp = opus_repacketizer_create();
-   js_open("rp");
+   int plen[8], pfr[8], nin, i, j, tot = 0, b, e, ret;
+   unsigned char toc;
+   OpusRepacketizer *rp;
+   char xs[32];
+   /* the generator state at entry is logged (as a string: 64 bits) so that the case can be re-executed */
+   snprintf(xs, sizeof xs, "%llu", (unsigned long long)r->s);
+   nin = hx_range(r, 1, 5);
+   toc = (unsigned char)((hx_pick(r, (const int[]){16, 17, 18, 24, 25, 26, 0, 8}, 8)) << 3 | 3);
+   rp = opus_repacketizer_create();
+   js_open("rp"); js_str("x", xs);
    printf(",\"in\":[");
    for (i = 0; i < nin; i++) {
       int M = hx_range(r, 1, 3), fs = hx_range(r, 1, 6), n, pos = 0, el, k;
@@ -540,7 +569,9 @@ static void replay(void)
          if (strstr(line, "\"k\":\"parse\"")) emit_parse(buf, len, n);
          else if (strstr(line, "\"k\":\"rt\"")) {
             long S = j_int(line, "S", 0), c = j_int(line, "cap", 0);
+            g_capm = (int)j_int(line, "capm", -1); g_padm = (int)j_int(line, "padm", 0);
             emit_rt(buf, len, n, (int)(c > S ? c - S : 0), (int)j_int(line, "pad", 0), &r);
+            g_capm = -1;
          } else {
             jnode *o = j_key(line, "ops"); int ops[MAXOPS][2], nops = o ? o->n : 0;
             if (nops > MAXOPS) nops = MAXOPS;
@@ -549,6 +580,9 @@ static void replay(void)
             j_free(o);
          }
          free(buf); j_free(d);
+      } else if (strstr(line, "\"k\":\"rp\"")) {
+         const char *x = strstr(line, ",\"x\":\"");
+         if (x) { hx_rng q; q.s = strtoull(x + 6, NULL, 10); emit_rp(&q); }
       } else if (strstr(line, "\"k\":\"gen\"")) {
          jnode *l = j_key(line, "list"); long S = j_int(line, "S", 0), c = j_int(line, "cap", 0);
          list_clear();
@@ -557,7 +591,9 @@ static void replay(void)
             list_add(&r, (int)e->k[0]->v, (int)e->k[1]->v, pl);
             for (j = 0; j < pl; j++) g_pay[g_nb - 1][j] = (unsigned char)e->k[2]->k[j]->v;
          }
+         g_capm = (int)j_int(line, "capm", -1); g_padm = (int)j_int(line, "padm", 0);
          emit_gen(g_list, g_nb, n, (int)(S >= 0 && c > S ? c - S : 0), (int)j_int(line, "pad", 0), &r);
+         g_capm = -1;
          list_clear(); j_free(l);
       }
    }
@@ -568,9 +604,10 @@ int main(int argc, char **argv)
 {
    hx_rng r; const char *cmd = argc > 1 ? argv[1] : "";
    int a = argc > 3 ? atoi(argv[3]) : 1000, b = argc > 4 ? atoi(argv[4]) : 0, i;
+   int shard = argc > 5 ? atoi(argv[5]) : 0, nshards = argc > 6 ? atoi(argv[6]) : 1;
    r.s = argc > 2 ? strtoull(argv[2], NULL, 10) : 1;
    hx_watchdog_init(); hx_arm(3000);
-   if (!strcmp(cmd, "sigma")) sigma_all(&r, a, b);                       /* a = K, b = with round trips */
+   if (!strcmp(cmd, "sigma")) sigma_all(&r, a, b, shard, nshards > 0 ? nshards : 1);   /* a = K, b = with round trips */
    else if (!strcmp(cmd, "sigmas")) sigma_sample(&r, 5, 9, a, 0);
    else if (!strcmp(cmd, "sigmai")) sigma_sample(&r, 0, 9, a, 1);
    else if (!strcmp(cmd, "fuzz")) fuzz(&r, a, 0);
@@ -578,9 +615,10 @@ int main(int argc, char **argv)
    else if (!strcmp(cmd, "genmut")) genmut(&r, a, 0);
    else if (!strcmp(cmd, "genmuti")) genmut(&r, a, 1);
    else if (!strcmp(cmd, "lists")) gen_lists(&r, a, b);                  /* b = allow huge payloads / long lists */
+   else if (!strcmp(cmd, "big")) gen_big(&r, a);
    else if (!strcmp(cmd, "rp")) for (i = 0; i < a; i++) emit_rp(&r);
    else if (!strcmp(cmd, "replay")) replay();
-   else { fprintf(stderr, "usage: hx_ext sigma|sigmas|sigmai|fuzz|fuzzi|genmut|genmuti|lists|rp|replay seed a [b]\n"); return 2; }
+   else { fprintf(stderr, "usage: hx_ext sigma|sigmas|sigmai|fuzz|fuzzi|genmut|genmuti|lists|big|rp|replay seed a [b [shard nshards]]\n"); return 2; }
    hx_disarm();
    return 0;
 }
